@@ -41,7 +41,8 @@ EXTENDS ClientDgram, FiniteSets
 CONSTANTS MReqs,     \* request numbers, e.g. 1..2
           MaxConn    \* bound on connect() calls
 
-NoReq == [st |-> "none", el |-> 0, cnt |-> 0, cid |-> -1, on |-> 0, q |-> 0]
+\* dl: ticks spent in the present back-off (fine clock only)
+NoReq == [st |-> "none", el |-> 0, cnt |-> 0, cid |-> -1, on |-> 0, q |-> 0, dl |-> 0]
 
 \* the configuration in force after script sc: rt = response timeout in ticks
 \* strt / stidle: the stream connections' response / idle timeout in ticks
@@ -53,7 +54,7 @@ MInitOf(sc) ==
   [conf |-> MConfOf(sc),
    reqs |-> [r \in MReqs |-> NoReq],
    chan |-> <<>>,                         \* NewConn commands: [r, id]
-   cs |-> [k |-> "None", c |-> 0, fresh |-> FALSE],   \* conn_state
+   cs |-> [k |-> "None", c |-> 0, fresh |-> FALSE, ret |-> 0, age |-> 0],   \* conn_state (ret, age: fine clock)
    connid |-> 0,
    connecting |-> 0,                      \* request whose NewConn is being served by connect()
    pendingc |-> FALSE,                    \* a connect() future is outstanding
@@ -73,7 +74,7 @@ Active(m, r) == m.reqs[r].st \notin {"none", "done"}
 \* ConnectionClosed is retried at once
 MFail(m, r, closedAtOnce) ==
   LET c == m.reqs[r].cnt + 1
-  IN [m EXCEPT !.reqs[r].cnt = c,
+  IN [m EXCEPT !.reqs[r].cnt = c, !.reqs[r].dl = 0,
                !.reqs[r].st = IF closedAtOnce /\ c = 1 THEN "wantconn" ELSE "delay"]
 
 \* StartQuery on connection c (1-based index into conns)
@@ -101,7 +102,7 @@ MServe(m) ==
      THEN MConnReply(m0, cmd.r, FALSE, 0, 0)
      ELSE LET m1 == IF cmd.id >= 0 /\ cmd.id >= m0.connid
                     THEN [m0 EXCEPT !.connid = @ + 1,
-                                    !.cs = [k |-> "None", c |-> 0, fresh |-> FALSE]]
+                                    !.cs = [k |-> "None", c |-> 0, fresh |-> FALSE, ret |-> 0, age |-> 0]]
                     ELSE m0
           IN IF m1.cs.k = "Some"
              THEN MConnReply(m1, cmd.r, TRUE, m1.connid, m1.cs.c)
@@ -135,12 +136,12 @@ MConnOkOp(m) ==
   LET c  == Len(m.conns) + 1
       m1 == [m EXCEPT !.conns = Append(@, [alive |-> TRUE, out |-> <<>>, cnt |-> 0,
                                             tk |-> "none", e |-> 0]),
-                      !.cs = [k |-> "Some", c |-> c, fresh |-> FALSE],
+                      !.cs = [k |-> "Some", c |-> c, fresh |-> FALSE, ret |-> 0, age |-> 0],
                       !.pendingc = FALSE, !.connecting = 0]
   IN MConnReply(m1, m.connecting, TRUE, m1.connid, c)
 
 MConnFailOp(m) ==
-  LET m1 == [m EXCEPT !.cs = [k |-> "Err", c |-> 0, fresh |-> TRUE],
+  LET m1 == [m EXCEPT !.cs = [k |-> "Err", c |-> 0, fresh |-> TRUE, ret |-> 0, age |-> 0],
                       !.pendingc = FALSE, !.connecting = 0]
   IN MConnReply(m1, m.connecting, FALSE, 0, 0)
 
@@ -247,6 +248,81 @@ MConnsSoundOf(m) ==
         /\ k.alive => /\ (k.cnt > 0 <=> k.tk = "active") /\ (k.tk = "active" => k.e < m.conf.strt)
                        /\ (k.tk = "idle" => k.e < m.conf.stidle)
         /\ ~k.alive => Waiting(m, c) = {}
+--------------------------------------------------------------------------
+(* multi_stream on a fine clock: ticks shorter than the back-off.           *)
+(*                                                                          *)
+(* Request::get_response, state Delay(instant, retry_time(n)): the pause is *)
+(* a random time below 2^n s (n = delayed_retry_count <= 6, then 60 s),     *)
+(* bounded by what is left of the response timeout.  Transport::run keeps   *)
+(* an error state for a random time below 2^retries s (retries counted from *)
+(* 0): while it lasts a NewConn is answered with the error at once, after   *)
+(* it the next NewConn makes it call connect() again.                       *)
+(*                                                                          *)
+(* Both durations are nondeterministic here, within the documented range:   *)
+(* a fine tick has a set of successors.  A pause that began at a tick       *)
+(* boundary (time moves in ticks only) and lasts d < B ends with tick       *)
+(* ceil(d / tick) <= ceil(B / tick); a pause of no time at all (d below     *)
+(* 1 us, probability 10^-6) is not modelled.  What is determined whatever   *)
+(* the pauses are: the request is completed no later than its response      *)
+(* timeout after submission (MOnTimeOf).                                    *)
+BackoffMs(n)    == 1000 * (IF n > 6 THEN 60 ELSE 2 ^ n)
+BackoffTicks(n) == TicksAt(BackoffMs(n), TickMs)
+
+\* connect() failed: ErrorState.retries is one more than that of the error
+\* state the attempt started from
+MConnFailOpF(m) ==
+  LET m1 == [m EXCEPT !.cs = [k |-> "Err", c |-> 0, fresh |-> TRUE,
+                             ret |-> IF m.cs.k = "Err" THEN m.cs.ret + 1 ELSE 0, age |-> 0],
+                      !.pendingc = FALSE, !.connecting = 0]
+  IN MConnReply(m1, m.connecting, FALSE, 0, 0)
+
+\* time moves by one tick: nobody is woken by that alone
+MAdvance(m) ==
+  MConnTimers(
+  [m EXCEPT !.reqs = [r \in MReqs |->
+                        IF Active(m, r)
+                        THEN [m.reqs[r] EXCEPT !.el = @ + 1,
+                                               !.dl = IF m.reqs[r].st = "delay" THEN @ + 1 ELSE @]
+                        ELSE m.reqs[r]],
+            !.cs.age = IF m.cs.k = "Err" THEN @ + 1 ELSE @], 1)
+
+\* the error state of Transport::run may have run out (it has when its age
+\* reaches the upper end of the range)
+MStaleSet(m) ==
+  IF m.cs.k = "Err" /\ m.cs.fresh
+  THEN {[m EXCEPT !.cs.fresh = FALSE]}
+       \cup (IF m.cs.age * TickMs < BackoffMs(m.cs.ret) THEN {m} ELSE {})
+  ELSE {m}
+
+MDelayed(m, D) == {r \in D : m.reqs[r].st = "delay"}
+MMustWake(m, D) == {r \in MDelayed(m, D) : m.reqs[r].dl >= BackoffTicks(m.reqs[r].cnt)}
+\* the back-offs of some of the requests D end, one after the other, each
+\* followed by everything that then runs without waiting
+RECURSIVE MWakeSet(_, _)
+MWakeSet(m, D) ==
+  (IF MMustWake(m, D) = {} THEN {m} ELSE {})
+  \cup UNION {MWakeSet(MQuiesce([m EXCEPT !.reqs[r].st = "wantconn"]), D \ {r}) : r \in MDelayed(m, D)}
+
+\* one fine tick: requests whose response timeout has run out are completed
+\* (also those in their back-off), then any of the others may be woken
+MFineTickSet(m) ==
+  LET m1 == MQuiesce(MAdvance(m))
+      D  == {r \in MReqs : m.reqs[r].st = "delay"}
+  IN UNION {MWakeSet(m2, D) : m2 \in MStaleSet(m1)}
+
+\* the steps of the environment other than the passing of time
+MEnvOpF(m, o) == IF o.op = "conn_fail" THEN MConnFailOpF(m) ELSE MEnvOp(m, o)
+MApplyF(m, o) == MQuiesce(MEnvOpF(m, o))
+\* successors of any step
+MSuccF(m, o) == IF o.op = "tick" THEN MFineTickSet(m) ELSE {MApplyF(m, o)}
+
+\* the back-off bookkeeping: a pause never outlasts its range, nor the
+\* request's response timeout
+MBackoffSoundOf(m) ==
+  /\ \A r \in MReqs : m.reqs[r].st = "delay" =>
+        /\ m.reqs[r].cnt >= 1 /\ m.reqs[r].dl < BackoffTicks(m.reqs[r].cnt)
+        /\ m.reqs[r].el < m.conf.rt
+  /\ (m.cs.k = "Err" /\ m.cs.fresh) => m.cs.age * TickMs < BackoffMs(m.cs.ret)
 --------------------------------------------------------------------------
 (* dgram_stream: UDP first (ClientDgram), TCP (multi_stream, request 1) iff *)
 (* the UDP answer is truncated.                                             *)
